@@ -25,6 +25,7 @@ type inputSource struct {
 	infile  string
 	chunks  int
 	outPref string
+	curDir  string // "dir" attribute of the current input when the line is an object {"dir":..,"buf":[..]}
 }
 
 func (s *inputSource) flags(fs *flag.FlagSet) {
@@ -115,10 +116,11 @@ func (s *inputSource) each(f func(in string)) (int, error) {
 			if len(line) == 0 {
 				continue
 			}
-			in, err := decodeInput(line)
+			in, dir, err := decodeInputDir(line)
 			if err != nil {
 				return n, err
 			}
+			s.curDir = dir
 			f(in)
 			n++
 		}
@@ -127,6 +129,37 @@ func (s *inputSource) each(f func(in string)) (int, error) {
 		}
 	}
 	return n, nil
+}
+
+func decodeInputDir(line []byte) (string, string, error) {
+	if line[0] == '"' {
+		// TLC writes ToJson output as a JSON string containing JSON
+		var inner string
+		if err := json.Unmarshal(line, &inner); err != nil {
+			return "", "", err
+		}
+		if len(inner) > 0 && inner[0] == '{' {
+			line = []byte(inner)
+		} else {
+			return inner, "", nil
+		}
+	}
+	if line[0] == '{' {
+		var o struct {
+			Dir  string `json:"dir"`
+			Buf  []int  `json:"buf"`
+			Text *string `json:"text"`
+		}
+		if err := json.Unmarshal(line, &o); err != nil {
+			return "", "", err
+		}
+		if o.Text != nil {
+			return *o.Text, o.Dir, nil
+		}
+		return bytesOf(o.Buf), o.Dir, nil
+	}
+	s, err := decodeInput(line)
+	return s, "", err
 }
 
 func decodeInput(line []byte) (string, error) {
